@@ -289,6 +289,12 @@ class SymKit(KitBase):
         e = arr.get(*[(wrap(i).t if isinstance(wrap(i), SV) else z3.IntVal(i)) for i in idx])
         return self.I.sym_bool(e)
 
+    def derived_array(self, shape, cell_fn):
+        """An array defined cell by cell from other symbolic values (contract-level construction of a state that
+        satisfies an invariant)."""
+        from .ndarray import NDArr
+        return NDArr.fresh(lambda *idx: wrap(cell_fn(*idx)), tuple(wrap(d) for d in shape), "float")
+
     def callable(self, fn):
         """A contract-level function passed into the analysed code as a callback."""
         return LibFn(lambda I2, a, k, n: wrap(fn(*[unwrap(x) for x in a], **{kk: unwrap(v) for kk, v in k.items()})), "contract callback")
@@ -713,7 +719,7 @@ class ConcKit(KitBase):
     def run_prefix(self, *a, **k):
         raise Skip()       # loop contracts are piecewise executions: no native counterpart (whole function is replayed by bounded checks)
 
-    loop_frame = loop_test = loop_body = run_suffix = local = yielded = seq = seq_slice = seq_at = seq_len = array_view = bool_cell = run_prefix
+    loop_frame = loop_test = loop_body = run_suffix = local = yielded = seq = seq_slice = seq_at = seq_len = array_view = bool_cell = derived_array = run_prefix
 
     def scalar(self, v):
         import numpy as np
